@@ -781,8 +781,13 @@ impl DbInner {
 				for (c, key_values) in commit.indexed.iter() {
 					key_values.clean_overlay(&mut overlay[*c as usize], old_id);
 				}
-				for (c, iterset) in commit.btree_indexed.iter_mut() {
-					iterset.clean_overlay(&mut overlay[*c as usize].btree_indexed, old_id);
+				// The postponed commit is queued again: keep its btree changes (clean_overlay
+				// drains them).
+				for (c, iterset) in commit.btree_indexed.iter() {
+					iterset.clean_overlay_keep_changes(
+						&mut overlay[*c as usize].btree_indexed,
+						old_id,
+					);
 				}
 			}
 
